@@ -575,3 +575,19 @@ pub proof fn lemma_last_sub(cs: Seq<char>, lit: Seq<char>)
 {
     lemma_last_sub_upto(cs, lit, cs.len() - lit.len());
 }
+
+// ---------------- suffix / substring on literals ----------------
+pub open spec fn is_suffix(p: Seq<char>, s: Seq<char>) -> bool { p.len() <= s.len() && s.skip(s.len() - p.len()) == p }
+pub open spec fn has_sub(s: Seq<char>, p: Seq<char>) -> bool { first_sub(s, p) >= 0 }
+#[verifier::external_body]
+fn shim_ends_with_str(s: &str, p: &str) -> (r: bool)
+    ensures r == is_suffix(p@, s@)
+{ s.ends_with(p) }
+#[verifier::external_body]
+fn shim_contains_str(s: &str, p: &str) -> (r: bool)
+    ensures r == has_sub(s@, p@)
+{ s.contains(p) }
+#[verifier::external_body]
+fn shim_strip_prefix_contains(s: &str, a: &str, b: &str) -> (r: bool)
+    ensures r == (a@.is_prefix_of(s@) && has_sub(s@.skip(a@.len() as int), b@))
+{ s.strip_prefix(a).is_some_and(|rest| rest.contains(b)) }
